@@ -16,51 +16,72 @@ PROPS = {
         'rule': 'one event per encode call; non-trivial = integer inside [-2^63, 2^63-1] or a toggle/nested position; '
                 'distinct = distinct (action, abstract input) pairs',
     },
-    'C03': {'rule': 'one event per encode+decode of a field value; every generated value is in the statement\'s domain '
+    'C03': {'mc': _mc({'module': 'MC_Values', 'cfg': 'MC_Values', 'tier': 'quick'}, {'module': 'MC_Values', 'cfg': 'MC_Values_deep', 'tier': 'thorough'}),
+            'rule': 'one event per encode+decode of a field value; every generated value is in the statement\'s domain '
                     '(re-decided by TLC: Encodable03); distinct = distinct abstract inputs'},
-    'C01': {'rule': 'one event per frame.marshal+frame.unmarshal of a method frame with specification-valid arguments; '
+    'C01': {'mc': _mc({'module': 'MC_Frames', 'cfg': 'MC_Frames', 'tier': 'both'}),
+            'rule': 'one event per frame.marshal+frame.unmarshal of a method frame with specification-valid arguments; '
                     'distinct = distinct (class, argument values, channel)'},
-    'C02': {'rule': 'one event per content-header round trip; quick: each of the 8192 presence subsets once + random'},
-    'C18': {'rule': 'one event per body / heartbeat / protocol-header round trip; distinct = distinct (payload, channel)'},
-    'C04': {'rule': 'one event per encoder call (frame.marshal of all five kinds, Frame.marshal(), Properties.marshal(), '
+    'C02': {'mc': _mc({'module': 'MC_Props', 'cfg': 'MC_Props', 'tier': 'both'}),
+            'rule': 'one event per content-header round trip; quick: each of the 8192 presence subsets once + random'},
+    'C18': {'mc': _mc({'module': 'MC_Frames', 'cfg': 'MC_Frames', 'tier': 'both'}),
+            'rule': 'one event per body / heartbeat / protocol-header round trip; distinct = distinct (payload, channel)'},
+    'C04': {'mc': _mc({'module': 'MC_Frames', 'cfg': 'MC_Frames', 'tier': 'both'}),
+            'rule': 'one event per encoder call (frame.marshal of all five kinds, Frame.marshal(), Properties.marshal(), '
                     'by_type, encode_table_value); every byte compared with the TLA+ reference encoder'},
-    'C14': {'rule': 'exhaustive static trace: one event per class reachable through INDEX_MAPPING (64), one for '
+    'C14': {'mc': _mc({'module': 'MC_Catalog', 'cfg': 'MC_Catalog', 'tier': 'both'}),
+            'rule': 'exhaustive static trace: one event per class reachable through INDEX_MAPPING (64), one for '
                     'Basic.Properties, one per AMQP class, one for the key set; compared field by field with Catalog.tla',
             'exhaustive': True, 'shards': lambda t: 1},
-    'C17': {'rule': 'exhaustive static trace: one event per CLASS_MAPPING entry (18), key set, constants',
+    'C17': {'mc': _mc({'module': 'MC_Catalog', 'cfg': 'MC_Catalog', 'tier': 'both'}),
+            'rule': 'exhaustive static trace: one event per CLASS_MAPPING entry (18), key set, constants',
             'exhaustive': True, 'shards': lambda t: 1},
-    'C05': {'rule': 'grammar-side generated wire bytes (all 19 tags, unsorted keys, reserved bits, non-UTF-8 long strings, '
+    'C05': {'mc': _mc({'module': 'MC_Frames', 'cfg': 'MC_Frames', 'tier': 'both'}, {'module': 'MC_Values', 'cfg': 'MC_Values_deep', 'tier': 'thorough'}),
+            'rule': 'grammar-side generated wire bytes (all 19 tags, unsorted keys, reserved bits, non-UTF-8 long strings, '
                     'values the send side refuses); non-trivial = every event; distinct by byte string'},
-    'C07': {'rule': 'one CutSet event per valid frame: every strict prefix (strategic cuts for frames > 700 bytes) decoded; '
+    'C07': {'mc': _mc({'module': 'MC_Frames', 'cfg': 'MC_Frames', 'tier': 'both'}, {'module': 'MC_Stream', 'cfg': 'MC_Stream_3', 'tier': 'thorough'}),
+            'rule': 'one CutSet event per valid frame: every strict prefix (strategic cuts for frames > 700 bytes) decoded; '
                     'non-trivial = frame longer than 8 bytes'},
-    'C13': {'rule': 'Construct / SetThenMarshal events around every constraint of every constrained argument, CharBlock events '
+    'C13': {'mc': _mc({'module': 'MC_Catalog', 'cfg': 'MC_Catalog', 'tier': 'both'}),
+            'rule': 'Construct / SetThenMarshal events around every constraint of every constrained argument, CharBlock events '
                     '(4096 code points each) over all of Unicode, crafted frames with refused values decoded'},
-    'C19': {'rule': 'one Observe event per object (constructed, after setattr, decoded) for all 64 classes + Basic.Properties'},
+    'C19': {'mc': _mc({'module': 'MC_Catalog', 'cfg': 'MC_Catalog', 'tier': 'both'}),
+            'rule': 'one Observe event per object (constructed, after setattr, decoded) for all 64 classes + Basic.Properties'},
     'C20': {'rule': 'FrameParts on buffers of length 0..16, every value of each header byte, Peek on encoded frames + tails, '
                     'stream sessions with the size-reading receiver walked by Stream.tla (Mode = peek)',
             'mc': _mc({'module': 'MC_Stream', 'cfg': 'MC_Stream_peek', 'tier': 'both', 'actions': ['Send', 'DoDeliver', 'PeekRead']},
                       {'module': 'MC_Stream', 'cfg': 'MC_Stream_peek3', 'tier': 'thorough'})},
-    'C08': {'rule': 'one Unmarshal event per input under the decoder-step budget ImplBound(n)=16n+256 (sys.setprofile); inputs: '
+    'C08': {'mc': _mc({'module': 'MC_DecodeLoops', 'cfg': 'MC_DecodeLoops', 'tier': 'both', 'actions': ['ArrayIter', 'FlagIter']},
+                      {'module': 'MC_DecodeLoops', 'cfg': 'MC_DecodeLoops_dev1', 'tier': 'both', 'expect_violation': 'Progress'},
+                      {'module': 'MC_DecodeLoops', 'cfg': 'MC_DecodeLoops_dev2', 'tier': 'both', 'expect_violation': 'StepBound'}),
+            'rule': 'one Unmarshal event per input under the decoder-step budget ImplBound(n)=16n+256 (sys.setprofile); inputs: '
                     'single-byte corruptions, rewritten length fields / flag words, truncated payloads in valid envelopes, '
                     'grammar-directed faults, nesting <= 64, random strings; peak memory measured on every 10th'},
-    'C09': {'rule': 'same corpus as C08; the clause only looks at the type of the exception that left frame.unmarshal'},
+    'C09': {'mc': _mc({'module': 'MC_DecodeLoops', 'cfg': 'MC_DecodeLoops', 'tier': 'both'}),
+            'rule': 'same corpus as C08; the clause only looks at the type of the exception that left frame.unmarshal'},
     'C06': {'rule': 'S2C: every distinct receiver buffer of the exhaustive Stream model decoded by the real code; C2S: stream '
                     'sessions (Send / Deliver k / TryDecode) walked by the Stream state machine inside the trace spec; complete '
                     'frames followed by 14 kinds of tail; fuzz inputs for the envelope clause',
             'mc': _mc({'module': 'MC_Stream', 'cfg': 'MC_Stream', 'tier': 'both', 'actions': ['Send', 'DoDeliver', 'TryDecode']},
                       {'module': 'MC_Stream', 'cfg': 'MC_Stream_3', 'tier': 'thorough'}),
             'gen': s2c.gen_stream},
-    'C10': {'rule': 'EncodeValue / EncodeArg / RoundTrip events with out-of-range, wrong-typed and boundary values at every '
+    'C10': {'mc': _mc({'module': 'MC_Values', 'cfg': 'MC_Values', 'tier': 'quick'}, {'module': 'MC_Values', 'cfg': 'MC_Values_deep', 'tier': 'thorough'}),
+            'rule': 'EncodeValue / EncodeArg / RoundTrip events with out-of-range, wrong-typed and boundary values at every '
                     'encoder entry point; non-trivial = every event; the clause only applies when the encoder did not raise'},
-    'C12': {'rule': 'every value encoded twice with deep snapshots before/after (order included); equal-content tables in '
+    'C12': {'mc': _mc({'module': 'MC_Order', 'cfg': 'MC_Order', 'tier': 'both', 'actions': ['AddEntry']}),
+            'gen': s2c.gen_order,
+            'rule': 'every value encoded twice with deep snapshots before/after (order included); equal-content tables in '
                     'different insertion orders (SameBytes); all frame kinds'},
-    'C15': {'rule': 'SetTZ(z) then encode/decode of naive, aware and struct_time instants (DST transition hours +-1 s) in-process '
+    'C15': {'mc': _mc({'module': 'MC_Tz', 'cfg': 'MC_Tz', 'tier': 'both', 'actions': ['SetTZA', 'SetTZB', 'Encode', 'Decode']}),
+            'rule': 'SetTZ(z) then encode/decode of naive, aware and struct_time instants (DST transition hours +-1 s) in-process '
                     'and in fresh interpreters started with TZ=z; the specification never reads the zone'},
     'C16': {'rule': 'histories of constructions / mutations / encodes / decodes / failed decodes on live objects: after every '
                     'action the projection of every live object (values and container identity) is compared with the object '
                     'world of the specification; threads: TLC-generated interleavings replayed by a line-level scheduler, '
                     'every call judged against the pure operator',
-            'mc': _mc({'module': 'MC_Threads', 'cfg': 'MC_Threads', 'tier': 'both', 'actions': ['Begin', 'Step', 'End']},
+            'mc': _mc({'module': 'MC_Api', 'cfg': 'MC_Api', 'tier': 'quick', 'actions': ['Construct', 'MutateObj', 'MutateUser', 'DoMarshal', 'DoUnmarshal', 'DoUnmarshalBad', 'Toggle']},
+                      {'module': 'MC_Api', 'cfg': 'MC_Api_deep', 'tier': 'thorough'},
+                      {'module': 'MC_Threads', 'cfg': 'MC_Threads', 'tier': 'both', 'actions': ['Begin', 'Step', 'End']},
                       {'module': 'MC_Threads', 'cfg': 'MC_Threads_dev', 'tier': 'both', 'expect_violation': 'PureResults'}),
             'gen': s2c.gen_threads_and_ladder},
 }
